@@ -3,6 +3,8 @@ package main
 import (
 	"encoding/hex"
 	"fmt"
+	"os"
+	"path/filepath"
 	"sort"
 	"strconv"
 	"strings"
@@ -35,21 +37,21 @@ type Mod struct {
 
 // DefOp mirrors GoModel.DefOp. H is a node handle (0 root, k = k-th cmd op).
 type DefOp struct {
-	Op   string  `json:"op"` // opt cmd fn mode umode ro unset mapkeys argcomp argfn synarg self help
-	H    int     `json:"h"`
-	Kind int     `json:"kind,omitempty"`
-	Name string  `json:"name,omitempty"`
-	Desc string  `json:"desc,omitempty"`
-	DefB bool    `json:"defb,omitempty"`
-	DefI int     `json:"defi,omitempty"`
-	DefS string  `json:"defs,omitempty"`
-	DefF float64 `json:"deff,omitempty"`
-	Min  int     `json:"min,omitempty"`
-	Max  int     `json:"max,omitempty"`
-	Mods []Mod   `json:"mods,omitempty"`
-	N    int     `json:"n,omitempty"` // fn id / mode / umode
+	Op   string   `json:"op"` // opt cmd fn mode umode ro unset mapkeys argcomp argfn synarg self help
+	H    int      `json:"h"`
+	Kind int      `json:"kind,omitempty"`
+	Name string   `json:"name,omitempty"`
+	Desc string   `json:"desc,omitempty"`
+	DefB bool     `json:"defb,omitempty"`
+	DefI int      `json:"defi,omitempty"`
+	DefS string   `json:"defs,omitempty"`
+	DefF float64  `json:"deff,omitempty"`
+	Min  int      `json:"min,omitempty"`
+	Max  int      `json:"max,omitempty"`
+	Mods []Mod    `json:"mods,omitempty"`
+	N    int      `json:"n,omitempty"` // fn id / mode / umode
 	L    []string `json:"l,omitempty"`
-	Var  bool    `json:"var,omitempty"` // use the *Var form with a pre-seeded variable
+	Var  bool     `json:"var,omitempty"` // use the *Var form with a pre-seeded variable
 	// initial contents of the variable handed to StringSliceVar / IntSliceVar / StringMapVar (with Var)
 	InitSS []string    `json:"initss,omitempty"`
 	InitIS []int       `json:"initis,omitempty"`
@@ -68,16 +70,25 @@ type Case struct {
 	Script   []DefOp  `json:"script"`
 	Args     []string `json:"args"`
 	Dispatch bool     `json:"dispatch,omitempty"`
-	Help     bool     `json:"help,omitempty"` // also compare Help() after Parse
-	Reparse  bool     `json:"reparse,omitempty"` // afterwards parse an empty command line on the same object (oracle)
+	Help     bool     `json:"help,omitempty"`     // also compare Help() after Parse
+	Reparse  bool     `json:"reparse,omitempty"`  // afterwards parse an empty command line on the same object (oracle)
 	PreEmpty bool     `json:"preempty,omitempty"` // Parse([]) on the object first (a two-phase parse); skipped (fresh object) when that fails
 	Twice    bool     `json:"twice,omitempty"`    // Parse + Dispatch a second time on the same object with the same arguments (oracle)
 	HelpSecs []int    `json:"helpsecs,omitempty"` // sections passed to Help(...): 2 name 3 synopsis 4 commands 5 options 6 info
 	// completion request instead of parse
-	Comp     bool     `json:"comp,omitempty"`
-	Zsh      bool     `json:"zsh,omitempty"`
-	CompLine string   `json:"compline,omitempty"`
-	Tag      string   `json:"tag,omitempty"`
+	Comp     bool   `json:"comp,omitempty"`
+	Zsh      bool   `json:"zsh,omitempty"`
+	CompLine string `json:"compline,omitempty"`
+	Tag      string `json:"tag,omitempty"`
+	// SetValue(name, values...) calls made on the object of handle H after a successful Parse, before the
+	// option values are read (and before Dispatch)
+	SetVals []SetVal `json:"setvals,omitempty"`
+}
+
+type SetVal struct {
+	H    int      `json:"h"`
+	Name string   `json:"name"`
+	Vals []string `json:"vals"`
 }
 
 func hx(s string) string { return "x" + hex.EncodeToString([]byte(s)) }
@@ -217,6 +228,11 @@ func floatCandidates(c *Case) []string {
 	for _, e := range c.Env {
 		add(e.V)
 	}
+	for _, sv := range c.SetVals {
+		for _, v := range sv.Vals {
+			add(v)
+		}
+	}
 	if c.Comp {
 		for _, w := range strings.Fields(c.CompLine) {
 			add(w)
@@ -290,6 +306,7 @@ func (c *Case) lines() []string {
 		out = append(out, fmt.Sprintf("env %s %s", hx(e.K), hx(e.V)))
 	}
 	out = append(out, "root "+hx(c.Root))
+	out = append(out, "exe "+hx(filepath.Base(os.Args[0]))) // what Self("", …) falls back to
 	if f := floatCandidates(c); len(f) > 0 {
 		l := "fok"
 		for _, s := range f {
@@ -318,6 +335,9 @@ func (c *Case) lines() []string {
 		out = append(out, fmt.Sprintf("complete %d %s %s", z, hx(c.CompLine), hxList(c.Args)))
 	} else {
 		out = append(out, "parse "+hxList(c.Args))
+		for _, sv := range c.SetVals {
+			out = append(out, fmt.Sprintf("setvalue %d %s %s", sv.H, hx(sv.Name), hxList(sv.Vals)))
+		}
 		if c.Dispatch {
 			out = append(out, "dispatch")
 		}
@@ -338,7 +358,7 @@ func (c *Case) answers() int {
 	if c.Comp {
 		return 1
 	}
-	n := 1
+	n := 1 + len(c.SetVals)
 	if c.Dispatch {
 		n++
 	}
